@@ -72,6 +72,24 @@ const ops = {
   },
 };
 
+// tokalpha: are the token streams of a and b equal up to a consistent (bijective) renaming of identifiers?
+ops.tokalpha = async (req) => {
+  let ta, tb;
+  try { ta = tokenList(req.a, req.goal); } catch (e) { return { error_a: String(e.message) }; }
+  try { tb = tokenList(req.b, req.goal); } catch (e) { return { error_b: String(e.message) }; }
+  if (ta.length !== tb.length) return { equal: false, n: ta.length, m: tb.length };
+  const ab = new Map(), ba = new Map();
+  for (let i = 0; i < ta.length; i++) {
+    const x = ta[i], y = tb[i];
+    if (x === y && !x.startsWith('name:')) continue;
+    if (!x.startsWith('name:') || !y.startsWith('name:')) return { equal: false, at: i, a: ta.slice(Math.max(0, i - 3), i + 4), b: tb.slice(Math.max(0, i - 3), i + 4) };
+    const p = ab.get(x), q = ba.get(y);
+    if (p === undefined && q === undefined) { ab.set(x, y); ba.set(y, x); }
+    else if (p !== y || q !== x) return { equal: false, at: i, a: ta.slice(Math.max(0, i - 3), i + 4), b: tb.slice(Math.max(0, i - 3), i + 4) };
+  }
+  return { equal: true, n: ta.length, renamed: [...ab].filter(([k, v]) => k !== v).length };
+};
+
 // execMulti: run ref once and every out; compare each out with ref
 ops.execMulti = async (req) => {
   const ra = await host.run(req.ref, current);
